@@ -11,7 +11,7 @@ import tempfile
 
 import rx
 
-from ..common import Check, Outcome, Snap, subscribe, subscribe2, bootstrap, norm, WORK
+from ..common import FILE_NAME_TAGS, Check, Outcome, Snap, subscribe, subscribe2, bootstrap, norm, WORK
 
 rs = bootstrap()
 from ..progs import call          # noqa: E402  (positional / keyword calling conventions, see progs.call)
@@ -85,7 +85,7 @@ class C20(Check):
             'non-trivial = rows > dump batch_size (several batches written); distinct = hash of the case')
     ASSUMPTIONS = ['pyarrow is trusted as parquet codec and as the independent reader']
     ANCHORS = ['rxsci/container/parquet.py', 'rxsci/data/batch.py']
-    REQUIRED_TAGS = ['none', 'snappy', 'gzip', 'zstd', 'rows=0', 'rows<b', 'rows=b', 'rows=kb', 'rows%b!=0', 'path', 'fileobj',
+    REQUIRED_TAGS = FILE_NAME_TAGS + ['none', 'snappy', 'gzip', 'zstd', 'rows=0', 'rows<b', 'rows=b', 'rows=kb', 'rows%b!=0', 'path', 'fileobj',
                      'nested', 'required', 'dictattr', 'row_group', 'rows-with-mixed_order', 'rows-with-mixed_extra', 'rows-with-reversed', 'pushed-source', 'after-a-failed-dump', 'numpy-typed-batch-size', 'file-object-not-at-position-0']
     REQUIRED_OBSERVED = ['rows_compared_rxsci_reader', 'rows_compared_pyarrow_reader']
 
@@ -119,6 +119,11 @@ class C20(Check):
                    'rowform': ['uniform', 'mixed_order', 'uniform', 'mixed_extra', 'reversed'][(k // 2) % 5]}
 
     def evaluate(self, case):
+        from ..common import in_dir
+        with in_dir(self._tmpdir()):
+            return self._evaluate(case)
+
+    def _evaluate(self, case):
         out = Outcome()
         rows = build_rows(case)
         b = case['batch']
@@ -134,7 +139,8 @@ class C20(Check):
         if case.get('rowform', 'uniform') != 'uniform' and case['schema'] != 'single' and n >= 2:
             out.tags.append('rows-with-' + case['rowform'])
         schema = SCHEMAS[case['schema']]()
-        path = os.path.join(self._tmpdir(), 'f.parquet')
+        from ..common import file_path
+        path = file_path(self._tmpdir(), 'f.parquet', '.parquet', (n + 2 * b) if case['target'] == 'path' else 0, out)
         if os.path.exists(path):
             os.unlink(path)
         P = rs.container.parquet
@@ -190,7 +196,8 @@ class C20(Check):
             return None
 
         try:
-            ref = pq.read_table(path).to_pylist()
+            with open(path, 'rb') as fref:       # (a file object: pyarrow's own path handling takes 'name:...' for a URI)
+                ref = pq.read_table(fref).to_pylist()
         except Exception as e:          # noqa: BLE001
             return out.fail('file-not-readable-by-pyarrow', error=repr(e))
         if compare('pyarrow_reader', ref):
